@@ -5,6 +5,16 @@ HERE = os.path.dirname(os.path.abspath(__file__))
 PY = "/venv/bin/python"
 
 CHECKS = {
+    "C01": dict(
+        level="exploration",
+        technique="bounded-exhaustive enumeration of hazard-token paragraphs, inline constructs and block sequences x contexts x critical widths x modes; re-parse oracle with two readers",
+        text="Every document of the hazard, inline and block spaces (every block-syntax look-alike token at every position of a short "
+             "paragraph, every separator, container contexts up to depth 2, every critical width so that each token lands at a line "
+             "start, both line-break modes; all 1-3 block sequences of a 64-block alphabet with and without separating blank lines) is "
+             "formatted and the output re-read with flowmark's own reader and, where it agrees on the input, with markdown-it-py; the "
+             "normalised trees must be equal. Violations are reduced to minimal cases and compared with KNOWN_FINDINGS.txt.",
+        note="Trusted: Marko 2.2.4 as Reader A, markdown-it-py 4.2 as Reader B, the normalisers in vf/readers.py. List tightness is compared by C10. Alphabets and bounds are finite (see evidence).",
+        ref="DESIGN.md §2 C01"),
     "C05": dict(
         level="model_checking",
         technique="explicit-state model of the greedy filler, exhaustive trace enumeration + replay of every trace against the implementation",
